@@ -26,6 +26,14 @@ package trend
 //@ rel[C18] "price" use forall k :: mul_cmp(lam, lips[k], teeths[k])
 //@ rel[C18] "price" use forall k :: mul_cmp(lam, lips[k], jaws[k])
 //@ rel[C18] "price" ensures len(second(result)) == len(result) && (forall k :: 0 <= k && k < len(result) ==> second(result)[k] == result[k])
+//@ rel[C18] "volume" param mu real
+//@ rel[C18] "volume" assume mu > 0 && len(second(snapshots)) == len(snapshots) && (forall k :: 0 <= k && k < len(snapshots) ==> vscaled(second(snapshots)[k], snapshots[k], mu))
+//@ rel[C18] "volume" use[cond] rma_scale(closingsSplice[0], second(closingsSplice[0]), 1, a.Jaw.Period, _)
+//@ rel[C18] "volume" use[cond] rma_scale(closingsSplice[1], second(closingsSplice[1]), 1, a.Teeth.Period, _)
+//@ rel[C18] "volume" use[cond] rma_scale(closingsSplice[2], second(closingsSplice[2]), 1, a.Lip.Period, _)
+//@ rel[C18] "volume" use forall k :: mul_cmp(1, lips[k], teeths[k])
+//@ rel[C18] "volume" use forall k :: mul_cmp(1, lips[k], jaws[k])
+//@ rel[C18] "volume" ensures len(second(result)) == len(result) && (forall k :: 0 <= k && k < len(result) ==> second(result)[k] == result[k])
 
 //@ func ApoStrategy.Compute
 //@ requires 1 <= a.Apo.FastPeriod && a.Apo.FastPeriod <= a.Apo.SlowPeriod && consumed(snapshots) == 0
@@ -45,6 +53,12 @@ package trend
 //@ rel[C18] "price" use[cond] ema_scale(closings, second(closings), lam, a.Apo.SlowPeriod, 2 / real(a.Apo.SlowPeriod + 1), _)
 //@ rel[C18] "price" use forall k :: mul_cmp(lam, emaS(closings, a.Apo.FastPeriod, 2 / real(a.Apo.FastPeriod + 1), k), emaS(closings, a.Apo.SlowPeriod, 2 / real(a.Apo.SlowPeriod + 1), k))
 //@ rel[C18] "price" ensures len(second(result)) == len(result) && (forall k :: 0 <= k && k < len(result) ==> second(result)[k] == result[k])
+//@ rel[C18] "volume" param mu real
+//@ rel[C18] "volume" assume mu > 0 && len(second(snapshots)) == len(snapshots) && (forall k :: 0 <= k && k < len(snapshots) ==> vscaled(second(snapshots)[k], snapshots[k], mu))
+//@ rel[C18] "volume" use[cond] ema_scale(closings, second(closings), 1, a.Apo.FastPeriod, 2 / real(a.Apo.FastPeriod + 1), _)
+//@ rel[C18] "volume" use[cond] ema_scale(closings, second(closings), 1, a.Apo.SlowPeriod, 2 / real(a.Apo.SlowPeriod + 1), _)
+//@ rel[C18] "volume" use forall k :: mul_cmp(1, emaS(closings, a.Apo.FastPeriod, 2 / real(a.Apo.FastPeriod + 1), k), emaS(closings, a.Apo.SlowPeriod, 2 / real(a.Apo.SlowPeriod + 1), k))
+//@ rel[C18] "volume" ensures len(second(result)) == len(result) && (forall k :: 0 <= k && k < len(result) ==> second(result)[k] == result[k])
 
 //@ func AroonStrategy.Compute
 //@ requires a.Aroon.Period >= 1 && consumed(c) == 0
@@ -64,6 +78,11 @@ package trend
 //@ rel[C18] "price" use[cond] aroonSince_pscale(highs, second(highs), lam, a.Aroon.Period, _)
 //@ rel[C18] "price" use[cond] aroonSince_pscale(lows, second(lows), lam, a.Aroon.Period, _)
 //@ rel[C18] "price" ensures len(second(result)) == len(result) && (forall k :: 0 <= k && k < len(result) ==> second(result)[k] == result[k])
+//@ rel[C18] "volume" param mu real
+//@ rel[C18] "volume" assume mu > 0 && len(second(c)) == len(c) && (forall k :: 0 <= k && k < len(c) ==> vscaled(second(c)[k], c[k], mu))
+//@ rel[C18] "volume" use[cond] aroonSince_pscale(highs, second(highs), 1, a.Aroon.Period, _)
+//@ rel[C18] "volume" use[cond] aroonSince_pscale(lows, second(lows), 1, a.Aroon.Period, _)
+//@ rel[C18] "volume" ensures len(second(result)) == len(result) && (forall k :: 0 <= k && k < len(result) ==> second(result)[k] == result[k])
 
 //@ func BopStrategy.Compute
 //@ requires consumed(c) == 0
@@ -86,6 +105,12 @@ package trend
 //@ rel[C18] "price" use forall k :: mul_lin(lam, highs[k], lows[k])
 //@ rel[C18] "price" use forall k :: ratio_scale(lam, closings[k] - openings[k], highs[k] - lows[k])
 //@ rel[C18] "price" ensures len(second(result)) == len(result) && (forall k :: 0 <= k && k < len(result) && (highs[k] != lows[k]) ==> second(result)[k] == result[k])
+//@ rel[C18] "volume" param mu real
+//@ rel[C18] "volume" assume mu > 0 && len(second(c)) == len(c) && (forall k :: 0 <= k && k < len(c) ==> vscaled(second(c)[k], c[k], mu))
+//@ rel[C18] "volume" use forall k :: mul_lin(1, closings[k], openings[k])
+//@ rel[C18] "volume" use forall k :: mul_lin(1, highs[k], lows[k])
+//@ rel[C18] "volume" use forall k :: ratio_scale(1, closings[k] - openings[k], highs[k] - lows[k])
+//@ rel[C18] "volume" ensures len(second(result)) == len(result) && (forall k :: 0 <= k && k < len(result) && (highs[k] != lows[k]) ==> second(result)[k] == result[k])
 
 //@ func CciStrategy.Compute
 //@ requires t.Cci.Period >= 1 && consumed(c) == 0
@@ -106,6 +131,11 @@ package trend
 //@ rel[C18] "price" step forall i :: 0 <= i && i < len(c) ==> second(highs)[i] == lam * highs[i] && second(lows)[i] == lam * lows[i] && second(closings)[i] == lam * closings[i]
 //@ rel[C18] "price" use[cond] cciS_pscale(highs, lows, closings, second(highs), second(lows), second(closings), lam, t.Cci.Period, len(c), _)
 //@ rel[C18] "price" ensures len(second(result)) == len(result) && (forall k :: 0 <= k && k < len(result) && (k >= 2 * t.Cci.Period - 2 ==> smaS(cciDevS(highs, lows, closings, t.Cci.Period), t.Cci.Period)[k - (2 * t.Cci.Period - 2)] != 0) ==> second(result)[k] == result[k])
+//@ rel[C18] "volume" param mu real
+//@ rel[C18] "volume" assume mu > 0 && len(second(c)) == len(c) && (forall k :: 0 <= k && k < len(c) ==> vscaled(second(c)[k], c[k], mu))
+//@ rel[C18] "volume" step forall i :: 0 <= i && i < len(c) ==> second(highs)[i] == 1 * highs[i] && second(lows)[i] == 1 * lows[i] && second(closings)[i] == 1 * closings[i]
+//@ rel[C18] "volume" use[cond] cciS_pscale(highs, lows, closings, second(highs), second(lows), second(closings), 1, t.Cci.Period, len(c), _)
+//@ rel[C18] "volume" ensures len(second(result)) == len(result) && (forall k :: 0 <= k && k < len(result) && (k >= 2 * t.Cci.Period - 2 ==> smaS(cciDevS(highs, lows, closings, t.Cci.Period), t.Cci.Period)[k - (2 * t.Cci.Period - 2)] != 0) ==> second(result)[k] == result[k])
 
 //@ func DemaStrategy.Compute
 //@ requires d.Dema1.Ema1.Period >= 1 && d.Dema1.Ema2.Period >= 1 && d.Dema2.Ema1.Period >= 1 && d.Dema2.Ema2.Period >= 1 && consumed(c) == 0
@@ -126,6 +156,12 @@ package trend
 //@ rel[C18] "price" use[cond] demaImpl_pscale(closings[1], second(closings[1]), lam, d.Dema2.Ema1.Period, emam(d.Dema2.Ema1), d.Dema2.Ema2.Period, emam(d.Dema2.Ema2), _)
 //@ rel[C18] "price" use forall k :: mul_cmp(lam, demas1[k], demas2[k])
 //@ rel[C18] "price" ensures len(second(result)) == len(result) && (forall k :: 0 <= k && k < len(result) ==> second(result)[k] == result[k])
+//@ rel[C18] "volume" param mu real
+//@ rel[C18] "volume" assume mu > 0 && len(second(c)) == len(c) && (forall k :: 0 <= k && k < len(c) ==> vscaled(second(c)[k], c[k], mu))
+//@ rel[C18] "volume" use[cond] demaImpl_pscale(closings[0], second(closings[0]), 1, d.Dema1.Ema1.Period, emam(d.Dema1.Ema1), d.Dema1.Ema2.Period, emam(d.Dema1.Ema2), _)
+//@ rel[C18] "volume" use[cond] demaImpl_pscale(closings[1], second(closings[1]), 1, d.Dema2.Ema1.Period, emam(d.Dema2.Ema1), d.Dema2.Ema2.Period, emam(d.Dema2.Ema2), _)
+//@ rel[C18] "volume" use forall k :: mul_cmp(1, demas1[k], demas2[k])
+//@ rel[C18] "volume" ensures len(second(result)) == len(result) && (forall k :: 0 <= k && k < len(result) ==> second(result)[k] == result[k])
 
 //@ func EnvelopeStrategy.Compute
 //@ requires consumed(snapshots) == 0
@@ -159,6 +195,12 @@ package trend
 //@ rel[C18] "price" use[cond] ema_scale(arg(Ema_Compute, 1, 0), second(arg(Ema_Compute, 1, 0)), lam, t.SlowEma.Period, emam(t.SlowEma), _)
 //@ rel[C18] "price" use forall k :: mul_cmp(lam, fastEmas[k], slowEmas[k])
 //@ rel[C18] "price" ensures len(second(result)) == len(result) && (forall k :: 0 <= k && k < len(result) ==> second(result)[k] == result[k])
+//@ rel[C18] "volume" param mu real
+//@ rel[C18] "volume" assume mu > 0 && len(second(c)) == len(c) && (forall k :: 0 <= k && k < len(c) ==> vscaled(second(c)[k], c[k], mu))
+//@ rel[C18] "volume" use[cond] ema_scale(arg(Ema_Compute, 0, 0), second(arg(Ema_Compute, 0, 0)), 1, t.FastEma.Period, emam(t.FastEma), _)
+//@ rel[C18] "volume" use[cond] ema_scale(arg(Ema_Compute, 1, 0), second(arg(Ema_Compute, 1, 0)), 1, t.SlowEma.Period, emam(t.SlowEma), _)
+//@ rel[C18] "volume" use forall k :: mul_cmp(1, fastEmas[k], slowEmas[k])
+//@ rel[C18] "volume" ensures len(second(result)) == len(result) && (forall k :: 0 <= k && k < len(result) ==> second(result)[k] == result[k])
 
 //@ func KamaStrategy.Compute
 //@ requires k.Kama.ErPeriod >= 1 && consumed(snapshots) == 0
@@ -182,6 +224,16 @@ package trend
 //@ rel[C18] "price" step forall i :: 0 <= i && i < len(kamas) ==> second(kamas)[i] == lam * kamas[i]
 //@ rel[C18] "price" use forall i :: mul_cmp(lam, closingsSplice[1][i], kamas[i])
 //@ rel[C18] "price" ensures len(second(result)) == len(result) && (forall k :: 0 <= k && k < len(result) ==> second(result)[k] == result[k])
+//@ rel[C18] "volume" param mu real
+//@ rel[C18] "volume" assume mu > 0 && len(second(snapshots)) == len(snapshots) && (forall k :: 0 <= k && k < len(snapshots) ==> vscaled(second(snapshots)[k], snapshots[k], mu))
+//@ rel[C18] "volume" assume forall j :: 0 <= j && j + k.Kama.ErPeriod < len(snapshots) ==> winS(absChS(closingsSplice[0]), k.Kama.ErPeriod)[j] != 0
+//@ rel[C18] "volume" step forall i :: 0 <= i && i < len(snapshots) ==> second(closingsSplice[0])[i] == 1 * closingsSplice[0][i]
+//@ rel[C18] "volume" use[cond] kamaScS_pscale(closingsSplice[0], second(closingsSplice[0]), 1, k.Kama.ErPeriod, k.Kama.FastScPeriod, k.Kama.SlowScPeriod, len(snapshots), _)
+//@ rel[C18] "volume" step forall j :: 0 <= j && j + k.Kama.ErPeriod < len(snapshots) ==> kamaScS(second(closingsSplice[0]), k.Kama.ErPeriod, k.Kama.FastScPeriod, k.Kama.SlowScPeriod)[j] == kamaScS(closingsSplice[0], k.Kama.ErPeriod, k.Kama.FastScPeriod, k.Kama.SlowScPeriod)[j]
+//@ rel[C18] "volume" use[cond] kamaR_scale(closingsSplice[0], second(closingsSplice[0]), kamaScS(closingsSplice[0], k.Kama.ErPeriod, k.Kama.FastScPeriod, k.Kama.SlowScPeriod), kamaScS(second(closingsSplice[0]), k.Kama.ErPeriod, k.Kama.FastScPeriod, k.Kama.SlowScPeriod), 1, k.Kama.ErPeriod, _)
+//@ rel[C18] "volume" step forall i :: 0 <= i && i < len(kamas) ==> second(kamas)[i] == 1 * kamas[i]
+//@ rel[C18] "volume" use forall i :: mul_cmp(1, closingsSplice[1][i], kamas[i])
+//@ rel[C18] "volume" ensures len(second(result)) == len(result) && (forall k :: 0 <= k && k < len(result) ==> second(result)[k] == result[k])
 
 //@ func KdjStrategy.Compute
 //@ requires kdj.Kdj.MovingMax.Period >= 1 && kdj.Kdj.MovingMin.Period == kdj.Kdj.MovingMax.Period && kdj.Kdj.Sma1.Period >= 1 && kdj.Kdj.Sma2.Period >= 1 && consumed(c) == 0
@@ -209,6 +261,18 @@ package trend
 //@ rel[C18] "price" step forall i :: 0 <= i && i + kdj.Kdj.Sma2.Period + kdj.Kdj.Sma1.Period + kdj.Kdj.MovingMax.Period - 2 <= len(c) ==> smaS(smaS(stochKS(second(highs), second(lows), second(closings), kdj.Kdj.MovingMax.Period), kdj.Kdj.Sma1.Period), kdj.Kdj.Sma2.Period)[i] == smaS(smaS(stochKS(highs, lows, closings, kdj.Kdj.MovingMax.Period), kdj.Kdj.Sma1.Period), kdj.Kdj.Sma2.Period)[i]
 //@ rel[C18] "price" step len(second(k)) == len(k) && (forall i :: 0 <= i && i < len(k) ==> second(k)[i] == k[i] && second(d)[i] == d[i] && second(j)[i] == j[i])
 //@ rel[C18] "price" ensures len(second(result)) == len(result) && (forall k :: 0 <= k && k < len(result) ==> second(result)[k] == result[k])
+//@ rel[C18] "volume" param mu real
+//@ rel[C18] "volume" assume mu > 0 && len(second(c)) == len(c) && (forall k :: 0 <= k && k < len(c) ==> vscaled(second(c)[k], c[k], mu))
+//@ rel[C18] "volume" assume forall j, hi :: 0 <= j && hi == j + kdj.Kdj.MovingMax.Period && hi <= len(c) ==> wmaxS(highs, j, hi) != wminS(lows, j, hi)
+//@ rel[C18] "volume" step forall i :: 0 <= i && i < len(c) ==> second(highs)[i] == 1 * highs[i] && second(lows)[i] == 1 * lows[i] && second(closings)[i] == 1 * closings[i]
+//@ rel[C18] "volume" use[cond] stochKS_pscale(highs, lows, closings, second(highs), second(lows), second(closings), 1, kdj.Kdj.MovingMax.Period, len(c), _)
+//@ rel[C18] "volume" step forall j :: 0 <= j && j + kdj.Kdj.MovingMax.Period <= len(c) ==> stochKS(second(highs), second(lows), second(closings), kdj.Kdj.MovingMax.Period)[j] == stochKS(highs, lows, closings, kdj.Kdj.MovingMax.Period)[j]
+//@ rel[C18] "volume" use[cond] smaS_cong(stochKS(highs, lows, closings, kdj.Kdj.MovingMax.Period), stochKS(second(highs), second(lows), second(closings), kdj.Kdj.MovingMax.Period), kdj.Kdj.Sma1.Period, _)
+//@ rel[C18] "volume" step forall i :: 0 <= i && i + kdj.Kdj.Sma1.Period + kdj.Kdj.MovingMax.Period - 1 <= len(c) ==> smaS(stochKS(second(highs), second(lows), second(closings), kdj.Kdj.MovingMax.Period), kdj.Kdj.Sma1.Period)[i] == smaS(stochKS(highs, lows, closings, kdj.Kdj.MovingMax.Period), kdj.Kdj.Sma1.Period)[i]
+//@ rel[C18] "volume" use[cond] smaS_cong(smaS(stochKS(highs, lows, closings, kdj.Kdj.MovingMax.Period), kdj.Kdj.Sma1.Period), smaS(stochKS(second(highs), second(lows), second(closings), kdj.Kdj.MovingMax.Period), kdj.Kdj.Sma1.Period), kdj.Kdj.Sma2.Period, _)
+//@ rel[C18] "volume" step forall i :: 0 <= i && i + kdj.Kdj.Sma2.Period + kdj.Kdj.Sma1.Period + kdj.Kdj.MovingMax.Period - 2 <= len(c) ==> smaS(smaS(stochKS(second(highs), second(lows), second(closings), kdj.Kdj.MovingMax.Period), kdj.Kdj.Sma1.Period), kdj.Kdj.Sma2.Period)[i] == smaS(smaS(stochKS(highs, lows, closings, kdj.Kdj.MovingMax.Period), kdj.Kdj.Sma1.Period), kdj.Kdj.Sma2.Period)[i]
+//@ rel[C18] "volume" step len(second(k)) == len(k) && (forall i :: 0 <= i && i < len(k) ==> second(k)[i] == k[i] && second(d)[i] == d[i] && second(j)[i] == j[i])
+//@ rel[C18] "volume" ensures len(second(result)) == len(result) && (forall k :: 0 <= k && k < len(result) ==> second(result)[k] == result[k])
 
 //@ func MacdStrategy.Compute
 //@ requires 1 <= m.Macd.Ema1.Period && m.Macd.Ema1.Period <= m.Macd.Ema2.Period && m.Macd.Ema3.Period >= 1 && consumed(snapshots) == 0
@@ -229,6 +293,13 @@ package trend
 //@ rel[C18] "price" use forall k :: mul_cmp(lam, macds[k], signals[k])
 //@ rel[C18] "price" use forall k :: mul_cmp(lam, macds[k], 0)
 //@ rel[C18] "price" ensures len(second(result)) == len(result) && (forall k :: 0 <= k && k < len(result) ==> second(result)[k] == result[k])
+//@ rel[C18] "volume" param mu real
+//@ rel[C18] "volume" assume mu > 0 && len(second(snapshots)) == len(snapshots) && (forall k :: 0 <= k && k < len(snapshots) ==> vscaled(second(snapshots)[k], snapshots[k], mu))
+//@ rel[C18] "volume" use[cond] macdS_pscale(closings, second(closings), 1, m.Macd.Ema1.Period, emam(m.Macd.Ema1), m.Macd.Ema2.Period, emam(m.Macd.Ema2), _)
+//@ rel[C18] "volume" use[cond] macdSignal_pscale(closings, second(closings), 1, m.Macd.Ema1.Period, emam(m.Macd.Ema1), m.Macd.Ema2.Period, emam(m.Macd.Ema2), m.Macd.Ema3.Period, emam(m.Macd.Ema3), _)
+//@ rel[C18] "volume" use forall k :: mul_cmp(1, macds[k], signals[k])
+//@ rel[C18] "volume" use forall k :: mul_cmp(1, macds[k], 0)
+//@ rel[C18] "volume" ensures len(second(result)) == len(result) && (forall k :: 0 <= k && k < len(result) ==> second(result)[k] == result[k])
 
 //@ func QstickStrategy.Compute
 //@ requires q.Qstick.Sma.Period >= 1 && consumed(c) == 0
@@ -249,6 +320,12 @@ package trend
 //@ rel[C18] "price" use[cond] smaS_scale(subS(closings, openings), subS(second(closings), second(openings)), lam, q.Qstick.Sma.Period, _)
 //@ rel[C18] "price" use forall k :: mul_cmp(lam, smaS(subS(closings, openings), q.Qstick.Sma.Period)[k], 0)
 //@ rel[C18] "price" ensures len(second(result)) == len(result) && (forall k :: 0 <= k && k < len(result) ==> second(result)[k] == result[k])
+//@ rel[C18] "volume" param mu real
+//@ rel[C18] "volume" assume mu > 0 && len(second(c)) == len(c) && (forall k :: 0 <= k && k < len(c) ==> vscaled(second(c)[k], c[k], mu))
+//@ rel[C18] "volume" use forall j :: subS_scale(closings, openings, second(closings), second(openings), 1, j)
+//@ rel[C18] "volume" use[cond] smaS_scale(subS(closings, openings), subS(second(closings), second(openings)), 1, q.Qstick.Sma.Period, _)
+//@ rel[C18] "volume" use forall k :: mul_cmp(1, smaS(subS(closings, openings), q.Qstick.Sma.Period)[k], 0)
+//@ rel[C18] "volume" ensures len(second(result)) == len(result) && (forall k :: 0 <= k && k < len(result) ==> second(result)[k] == result[k])
 
 // documented warm-up: the slower SMMA, i.e. max(periods)-1
 //@ func SmmaStrategy.Compute
@@ -268,6 +345,12 @@ package trend
 //@ rel[C18] "price" use[cond] rma_scale(closingsSplice[1], second(closingsSplice[1]), lam, s.LongSmma.Period, _)
 //@ rel[C18] "price" use forall k :: mul_cmp(lam, shortSmmas[k], longSmmas[k])
 //@ rel[C18] "price" ensures len(second(result)) == len(result) && (forall k :: 0 <= k && k < len(result) ==> second(result)[k] == result[k])
+//@ rel[C18] "volume" param mu real
+//@ rel[C18] "volume" assume mu > 0 && len(second(snapshots)) == len(snapshots) && (forall k :: 0 <= k && k < len(snapshots) ==> vscaled(second(snapshots)[k], snapshots[k], mu))
+//@ rel[C18] "volume" use[cond] rma_scale(closingsSplice[0], second(closingsSplice[0]), 1, s.ShortSmma.Period, _)
+//@ rel[C18] "volume" use[cond] rma_scale(closingsSplice[1], second(closingsSplice[1]), 1, s.LongSmma.Period, _)
+//@ rel[C18] "volume" use forall k :: mul_cmp(1, shortSmmas[k], longSmmas[k])
+//@ rel[C18] "volume" ensures len(second(result)) == len(result) && (forall k :: 0 <= k && k < len(result) ==> second(result)[k] == result[k])
 
 //@ func TrimaStrategy.Compute
 //@ requires 1 <= t.Short.Period && t.Short.Period <= t.Long.Period && consumed(c) == 0
@@ -288,6 +371,12 @@ package trend
 //@ rel[C18] "price" use[cond] trimaS_pscale(closings[1], second(closings[1]), lam, t.Long.Period, _)
 //@ rel[C18] "price" use forall k :: mul_cmp(lam, shorts[k], longs[k])
 //@ rel[C18] "price" ensures len(second(result)) == len(result) && (forall k :: 0 <= k && k < len(result) ==> second(result)[k] == result[k])
+//@ rel[C18] "volume" param mu real
+//@ rel[C18] "volume" assume mu > 0 && len(second(c)) == len(c) && (forall k :: 0 <= k && k < len(c) ==> vscaled(second(c)[k], c[k], mu))
+//@ rel[C18] "volume" use[cond] trimaS_pscale(closings[0], second(closings[0]), 1, t.Short.Period, _)
+//@ rel[C18] "volume" use[cond] trimaS_pscale(closings[1], second(closings[1]), 1, t.Long.Period, _)
+//@ rel[C18] "volume" use forall k :: mul_cmp(1, shorts[k], longs[k])
+//@ rel[C18] "volume" ensures len(second(result)) == len(result) && (forall k :: 0 <= k && k < len(result) ==> second(result)[k] == result[k])
 
 //@ func TripleMovingAverageCrossoverStrategy.Compute
 //@ requires 1 <= t.FastEma.Period && t.FastEma.Period <= t.MediumEma.Period && t.MediumEma.Period <= t.SlowEma.Period && consumed(c) == 0
@@ -311,6 +400,14 @@ package trend
 //@ rel[C18] "price" use forall k :: mul_cmp(lam, fastEmas[k], mediumEmas[k])
 //@ rel[C18] "price" use forall k :: mul_cmp(lam, fastEmas[k], slowEmas[k])
 //@ rel[C18] "price" ensures len(second(result)) == len(result) && (forall k :: 0 <= k && k < len(result) ==> second(result)[k] == result[k])
+//@ rel[C18] "volume" param mu real
+//@ rel[C18] "volume" assume mu > 0 && len(second(c)) == len(c) && (forall k :: 0 <= k && k < len(c) ==> vscaled(second(c)[k], c[k], mu))
+//@ rel[C18] "volume" use[cond] ema_scale(arg(Ema_Compute, 0, 0), second(arg(Ema_Compute, 0, 0)), 1, t.FastEma.Period, emam(t.FastEma), _)
+//@ rel[C18] "volume" use[cond] ema_scale(arg(Ema_Compute, 1, 0), second(arg(Ema_Compute, 1, 0)), 1, t.MediumEma.Period, emam(t.MediumEma), _)
+//@ rel[C18] "volume" use[cond] ema_scale(arg(Ema_Compute, 2, 0), second(arg(Ema_Compute, 2, 0)), 1, t.SlowEma.Period, emam(t.SlowEma), _)
+//@ rel[C18] "volume" use forall k :: mul_cmp(1, fastEmas[k], mediumEmas[k])
+//@ rel[C18] "volume" use forall k :: mul_cmp(1, fastEmas[k], slowEmas[k])
+//@ rel[C18] "volume" ensures len(second(result)) == len(result) && (forall k :: 0 <= k && k < len(result) ==> second(result)[k] == result[k])
 
 //@ func TrixStrategy.Compute
 //@ requires t.Trix.Period >= 1 && consumed(snapshots) == 0
@@ -328,6 +425,10 @@ package trend
 //@ rel[C18] "price" assume lam > 0 && len(second(snapshots)) == len(snapshots) && (forall k :: 0 <= k && k < len(snapshots) ==> pscaled(second(snapshots)[k], snapshots[k], lam))
 //@ rel[C18] "price" use[cond] trixS_pscale(closings, second(closings), lam, t.Trix.Period, _)
 //@ rel[C18] "price" ensures len(second(result)) == len(result) && (forall k :: 0 <= k && k < len(result) && (k >= 3 * t.Trix.Period - 2 ==> ema3S(closings, t.Trix.Period)[k - (3 * t.Trix.Period - 2)] != 0) ==> second(result)[k] == result[k])
+//@ rel[C18] "volume" param mu real
+//@ rel[C18] "volume" assume mu > 0 && len(second(snapshots)) == len(snapshots) && (forall k :: 0 <= k && k < len(snapshots) ==> vscaled(second(snapshots)[k], snapshots[k], mu))
+//@ rel[C18] "volume" use[cond] trixS_pscale(closings, second(closings), 1, t.Trix.Period, _)
+//@ rel[C18] "volume" ensures len(second(result)) == len(result) && (forall k :: 0 <= k && k < len(result) && (k >= 3 * t.Trix.Period - 2 ==> ema3S(closings, t.Trix.Period)[k - (3 * t.Trix.Period - 2)] != 0) ==> second(result)[k] == result[k])
 
 //@ func TsiStrategy.Compute
 //@ requires consumed(snapshots) == 0
